@@ -45,7 +45,9 @@ Definition chk_sender (c : sender_case) : bool :=
   let '(_, os, cs) := run_script m1 m2 reporter_init evs in
   list_eqb outcome_eqb os obs && text_eqb (render cs) captured &&
   (* the hypotheses of c18_framing / c18_end_to_end hold of the real stream, and so does the conclusion *)
-  payloads_ok cs && noise_ok cs && texts_eqb (retrieve_model (readlines (render cs))) (payloads_of cs).
+  payloads_ok cs && noise_ok cs && texts_eqb (retrieve_model (readlines (render cs))) (payloads_of cs) &&
+  (* wire format: every payload is ASCII-only (hypothesis of c18_encoding_independent) *)
+  payloads_ascii cs.
 """
 
 
@@ -147,6 +149,8 @@ def build(spec):
         return None
     if k == "big":
         return "x" * int(spec[1])
+    if k == "bigu":   # a long string with one wide character in front or at the end
+        return spec[2] + "x" * int(spec[1]) if spec[3] == "front" else "x" * int(spec[1]) + spec[2]
     if k == "np":
         dt, v = spec[1], spec[2]
         if dt == "bool_":
@@ -268,11 +272,15 @@ def gen_call(rng, kind):
         items[rng.randrange(len(items))][1] = ["big", rng.choice([50000, 50100, 60000, 120000])]
     elif kind == "large_ok":
         items = [["a", ["big", rng.choice([10000, 40000, 49000, 49700])]]]
+    elif kind == "large_wide":
+        # far below the limit, one non-ASCII character (an escape of 6 or 12 characters on the wire)
+        items = [["note", ["bigu", rng.choice([10000, 20000, 30000, 40000]),
+                           rng.choice(["\U0001F600", "\u00e4", "\u4e2d", "\ud800", "\u2713"]), rng.choice(["front", "end"])]]]
     return ["call", items]
 
 
 CALL_KINDS = (["ok"] * 14 + ["empty", "st_key", "st_key", "none", "none", "st_and_none", "bad_null", "bad_null",
-                             "bad_typeerror", "huge", "large_ok"])
+                             "bad_typeerror", "huge", "large_ok", "large_wide"])
 
 
 def gen_sequence(rng):
@@ -289,7 +297,7 @@ def gen_sequence(rng):
         else:
             kind = rng.choice(CALL_KINDS)
             evs.append(gen_call(rng, kind))
-            if kind in ("ok", "empty", "large_ok") and add_time:
+            if kind in ("ok", "empty", "large_ok", "large_wide") and add_time:
                 acc = ""
     return dict(add_time=add_time, add_cost=add_cost, events=evs)
 
@@ -402,9 +410,6 @@ def run_sequence(ctx, seq, lines_cases, lines_meta, sender_cases, sender_meta):
                 ctx.violation("property", "a JSON-serialisable report %r was not delivered: Reporter(add_time=%s) raised %s: %s"
                               % (items, seq["add_time"], type(err).__name__, str(err)[:200]), case=case, signature=sig)
                 expected.pop()
-                if delta:
-                    ctx.violation("property", "a rejected report left output %r on the stream" % delta[:200], case=case,
-                                  signature=dict(component="Reporter", defect="output_from_rejected_report"))
         else:
             if err is None:
                 if why.startswith("unserialisable"):
@@ -1200,6 +1205,143 @@ def gated_stream(ctx, plans):
         shutil.rmtree(tmp, ignore_errors=True)
 
 
+# --------------------------------------------------------------------------
+# non-ASCII keys / values through streams with an explicit encoding
+# --------------------------------------------------------------------------
+UNI = ["ä", "café", "中文", "\U0001F600", "\ud800", "bad \udfff x", "✓", "naïve \U0001F600", "€",
+       "\u0081", "ÿ}", "{日本", "[tune-metric]: {é", " ", "plain"]
+
+
+def gen_enc_case(rng):
+    reports = []
+    for _ in range(rng.randint(1, 3)):
+        items = []
+        for k in rng.sample(["name", "tags", rng.choice(UNI), "k " + rng.choice(UNI)], rng.randint(1, 3)):
+            v = rng.choice([["str", rng.choice(UNI)], ["str", rng.choice(UNI) + rng.choice(UNI)],
+                            ["list", [["str", rng.choice(UNI)], ["int", 1]]],
+                            ["dict", [[rng.choice(UNI), ["str", rng.choice(UNI)]]]], ["np", "str_", rng.choice(UNI)],
+                            ["float", "nan"]])
+            items.append([k, v])
+        reports.append(items)
+    w = rng.choice(["ascii", "latin-1", "utf-8", "cp1252"])
+    return dict(reports=reports, w=w, r=rng.choice([w, "utf-8"]))
+
+
+def encoded_stream(ctx, cases):
+    """Reporter writes to a real encoding text stream (what sys.stdout of a training script is); the tuner decodes
+    the bytes; the other output is plain ASCII. Every report must arrive unchanged whatever the two encodings."""
+    from syne_tune.report import Reporter, retrieve
+    for c in cases:
+        case = dict(kind="enc", enc=c)
+        raw = io.BytesIO()
+        stream = io.TextIOWrapper(raw, encoding=c["w"], newline="\n")
+        err = None
+        sent = []
+        with contextlib.redirect_stdout(stream):
+            rep = Reporter()
+            for items in c["reports"]:
+                print("some other output { ... ")
+                try:
+                    rep(**{k: build(v) for k, v in items})
+                    sent.append({k: expect(v) for k, v in items})
+                except Exception as e:  # noqa
+                    err = (items, e)
+                    break
+            try:
+                stream.flush()
+            except Exception as e:  # noqa
+                err = err or (c["reports"][-1], e)
+        ctx.count(("enc", c), nontrivial=True)
+        ctx.traces_validated += 1
+        ctx.h("enc_stream", "%s->%s" % (c["w"], c["r"]))
+        sig = dict(component="Reporter", defect="report_depends_on_stream_encoding", write_encoding=c["w"])
+        if err is not None:
+            ctx.violation("property", "a JSON-serialisable report %r could not be written to a stdout with encoding %s: %s: %s"
+                          % (err[0], c["w"], type(err[1]).__name__, str(err[1])[:160]), case=case,
+                          signature=dict(sig, exception=type(err[1]).__name__))
+            continue
+        try:
+            text = raw.getvalue().decode(c["r"])
+            got = [{k: v for k, v in d.items() if k not in RESERVED} for d in retrieve(text.splitlines(True))]
+        except Exception as e:  # noqa
+            ctx.violation("property", "reports %r written with encoding %s cannot be read back with encoding %s: %s: %s"
+                          % (c["reports"], c["w"], c["r"], type(e).__name__, str(e)[:160]), case=case,
+                          signature=dict(sig, read_encoding=c["r"], exception=type(e).__name__))
+            continue
+        if not (len(got) == len(sent) and all(same(a, b) for a, b in zip(got, sent))):
+            ctx.violation("property", "reports written with encoding %s and read with %s arrive changed: sent %r, received %r"
+                          % (c["w"], c["r"], sent, got), case=case, signature=dict(sig, read_encoding=c["r"]))
+    if cases:
+        ctx.sample(dict(kind="encoded_stream", case=cases[0]))
+
+
+ASCII_SCRIPT = r"""
+import json, sys
+from syne_tune import Reporter
+args = dict(zip(sys.argv[1::2], sys.argv[2::2]))
+report = Reporter()
+print("starting")
+for kw in json.load(open(args["--plan"])):
+    report(**kw)
+    print("in between")
+"""
+
+
+def ascii_stdout_backend(ctx, reports):
+    """end to end: a LocalBackend trial whose stdout is ASCII (PYTHONIOENCODING=ascii, i.e. LANG=C on a cluster)"""
+    import logging
+    import shutil
+    import time
+    from syne_tune.backend import LocalBackend
+    from syne_tune.backend.trial_status import Status
+    case = dict(kind="ascii_backend", reports=reports)
+    tmp = tempfile.mkdtemp(prefix="c18_ascii_")
+    logging.getLogger("syne_tune").setLevel(logging.WARNING)
+    saved = os.environ.get("PYTHONIOENCODING")
+    backend = tid = None
+    try:
+        script = os.path.join(tmp, "train_script.py")
+        open(script, "w").write(ASCII_SCRIPT)
+        planf = os.path.join(tmp, "plan.json")
+        json.dump(reports, open(planf, "w"))
+        sink = io.StringIO()
+        with contextlib.redirect_stdout(sink), contextlib.redirect_stderr(sink):
+            backend = LocalBackend(entry_point=script, rotate_gpus=False)
+            backend.set_path(results_root=os.path.join(tmp, "results"))
+            os.environ["PYTHONIOENCODING"] = "ascii"
+            try:
+                tid = backend.start_trial(config={"plan": planf}).trial_id
+            finally:
+                if saved is None:
+                    os.environ.pop("PYTHONIOENCODING", None)
+                else:
+                    os.environ["PYTHONIOENCODING"] = saved
+        got, status, t0 = [], Status.in_progress, time.time()
+        while time.time() - t0 < 90:
+            st, res = backend.fetch_status_results([tid])
+            got += [{k: v for k, v in m.items() if k not in RESERVED} for _, m in res]
+            status = st[tid][1]
+            if status != Status.in_progress:
+                break
+            time.sleep(0.05)
+        if status == Status.in_progress:
+            ctx.notes.append("ascii stdout stream: trial did not end (environment); skipped")
+            return
+        ctx.count(("ascii_backend", reports), nontrivial=True)
+        ctx.traces_validated += 1
+        if status != Status.completed or not (len(got) == len(reports) and all(same(a, b) for a, b in zip(got, reports))):
+            stderr = "".join(backend.stderr(tid))[-300:]
+            ctx.violation("property", "LocalBackend trial with ASCII stdout (PYTHONIOENCODING=ascii) reported %r; it ended as %s and "
+                          "the tuner received %r; stderr: %s" % (reports, status, got, stderr), case=case,
+                          signature=dict(component="Reporter", defect="report_depends_on_stream_encoding", write_encoding="ascii",
+                                         where="LocalBackend"))
+    finally:
+        proc = backend.trial_subprocess.get(tid) if backend is not None and tid is not None else None
+        if proc is not None and proc.poll() is None:
+            proc.kill()
+        shutil.rmtree(tmp, ignore_errors=True)
+
+
 def prefix_cases(ctx, rng, lines_cases, lines_meta):
     """retrieve() on every prefix of a stream (a reader that sees the file while it grows): either exactly the
     complete reports so far, or an exception caused by the cut line — never a wrong or missing dictionary"""
@@ -1268,6 +1410,12 @@ def run(ctx, replay=None):
         elif replay.get("kind") == "gated":
             gated_stream(ctx, replay["plans"])
             return
+        elif replay.get("kind") == "enc":
+            encoded_stream(ctx, [replay["enc"]])
+            return
+        elif replay.get("kind") == "ascii_backend":
+            ascii_stdout_backend(ctx, replay["reports"])
+            return
         elif replay.get("kind") == "poll":
             polling_stream(ctx, [[tuple(c) for c in replay["chunks"]]])
             return
@@ -1301,6 +1449,9 @@ def run(ctx, replay=None):
         backend_kill_stream(ctx, gen_kill_plans(rng))
         polling_stream(ctx, gen_poll_streams(rng))
         gated_stream(ctx, gen_gate_plans(rng))
+        encoded_stream(ctx, [gen_enc_case(rng) for _ in range(ctx.n(120, 2000))])
+        ascii_stdout_backend(ctx, [dict(epoch=1, name="caf\u00e9", tags=["\u2713", "\u4e2d\u6587"]),
+                                   {"epoch": 2, "name": "na\u00efve \U0001F600", "k \u00e4": {"\u20ac": rng.choice(UNI[:4])}}])
     for i in ctx.coq_bad_cases("lines", IMPORTS, PRELUDE, "chk_lines", lines_cases, shard=150):
         ctx.violation("correspondence", "model readlines/retrieve_model differs from readlines()+re.findall of the real retrieve",
                       case=lines_meta[i], failing_input=False, broken="correspondence chk_lines (model/Report.v retrieve_model)")
